@@ -81,7 +81,7 @@ IDENT = (r"^core::convert::AsRef::as_ref$|^core::ops::deref::Deref::deref$|^core
          r"^alloc::string::String::as_str$|^alloc::string::String::as_bytes$|^core::str::<impl str>::as_bytes$|^alloc::vec::Vec::<T, A>::as_slice$|"
          r"^core::hint::must_use$|^alloc::boxed::Box::<T>::new$|^core::convert::AsMut::as_mut$|^alloc::string::String::into_bytes$|^core::slice::<impl \[T\]>::iter$|"
          r"^core::iter::traits::collect::IntoIterator::into_iter$|^alloc::str::<impl str>::to_owned$|^core::array::<impl \[T; N\]>::as_slice$|^generic_array::GenericArray::<T, N>::as_slice$|"
-         r"^core::str::<impl str>::to_string$|^alloc::string::String::from_utf8_unchecked$|^core::mem::take$X")
+         r"^core::str::<impl str>::to_string$|^alloc::string::String::from_utf8_unchecked$")
 
 
 @model(IDENT)
@@ -469,9 +469,11 @@ def m_format(I, st, info, args, depth):
         else:
             okk = False
             break
+    n = st.facts.get("nfmt", 0)
+    st.facts["nfmt"] = n + 1
     if not okk:
-        return ret(st, Seq("formatted", Aff.sym("len(fmt@%d)" % info["ln"]), kind="str"))
-    return ret(st, Seq("formatted", Aff.sym("len(fmt@%d)" % info["ln"]), None, chunks, kind="str"))
+        return ret(st, Seq("formatted#%d" % n, Aff.sym("len(fmt#%d)" % n), kind="str"))
+    return ret(st, Seq("formatted#%d" % n, Aff.sym("len(fmt#%d)" % n), None, chunks, kind="str"))
 
 
 @model(r"^base64::engine::Engine::encode$")
@@ -834,3 +836,442 @@ def m_json_map(I, st, info, args, depth):
         return [(s2, "return", some(item)), (st, "return", none())]
     st.events.append(("Map::" + op, nm, k))
     return ret(st, Top("Map::" + op))
+
+
+# ====================================================================== C09: lengths, indexing and the SAFE / PANICKY tables
+def seq_of(I, st, v, what="seq"):
+    """a Seq view of a slice / Vec / array / str value (opaque values get a symbolic length)"""
+    v = deref(I, st, v)
+    if isinstance(v, Seq):
+        return v
+    if isinstance(v, StrV):
+        b = v.s.encode() if isinstance(v.s, str) else v.s
+        return Seq("lit", Aff(len(b)), kind="str", attrs={"const": v.s})
+    if isinstance(v, Struct) and len(v.fields) == 1 and "0" in v.fields:
+        return seq_of(I, st, v.fields["0"], what)
+    if isinstance(v, Sym):
+        l = length_of(I, st, v)
+        return Seq(v.name, l, kind="bytes")
+    return Seq("?" + what, Aff.sym("len(?%s)" % what), kind="bytes", attrs={"top": True})
+
+
+def range_parts(I, st, r):
+    r = deref(I, st, r)
+    if isinstance(r, Struct):
+        nm = r.adt.split("::")[-1]
+        return nm, r.fields.get("start"), r.fields.get("end")
+    return None, None, None
+
+
+def need(I, st, info, kind, cond, needtxt):
+    """returns list of (state, ok)"""
+    if isinstance(cond, BoolV):
+        return site(I, st, info, kind, cond.b, needtxt)
+    return site(I, st, info, kind, cond, needtxt)
+
+
+@model(r"^core::ops::index::Index::index$|^core::ops::index::IndexMut::index_mut$")
+def m_index(I, st, info, args, depth):
+    nm = info["name"]
+    if info["def"] in I.facts.bodies:
+        return None
+    base = deref(I, st, args[0])
+    # serde_json Value indexing never panics on the immutable path (returns Null)
+    if "serde_json::value::Value" in nm and "Index<" in nm:
+        if "IndexMut" in info["tdef"]:
+            return [(st, "panic", ("Value::index_mut", info["fn"], info["ln"]))] if False else ret(st, Sym("json_member"))
+        k = str_key(I, st, args[1])
+        bn = getattr(base, "name", "json")
+        key = (("jsonidx", bn), k)
+        if key not in st.symfields:
+            st.symfields[key] = json_sym("%s[%s]" % (bn, k[1]))
+        c = st.new_cell(st.symfields[key])
+        return ret(st, Ptr(c, ()))
+    if "HashMap<" in nm:
+        mname = repr(I.resolve(st, args[0]))
+        k = str_key(I, st, args[1])
+        known = st.facts.get(("hashcontains", mname, k))
+        out = []
+        for s2, okk in site(I, st, info, "HashMap index", True if known is True else (False if known is False else SymBool(("contains", mname, k[1]))), "the key is present in the map (guard with contains_key / use get)"):
+            if okk:
+                out.append((s2, "return", Sym("%s[%s]" % (mname, k[1]))))
+            else:
+                out.append((s2, "panic", ("HashMap index", info["fn"], info["ln"])))
+        return out
+    idx = I.resolve(st, args[1])
+    is_str = re.search(r"Index<.*> for str>|<str as core::ops::index::Index|<alloc::string::String as core::ops::index::Index", nm) is not None
+    s_ = seq_of(I, st, base)
+    L = s_.length
+    rk, a, b = range_parts(I, st, idx)
+    out = []
+    if rk is None and isinstance(idx, Aff):
+        # element access
+        for s2, okk in need(I, st, info, "index", I.compare(st, "Lt", idx, L), "index %r < len %r" % (idx, L)):
+            if okk:
+                el = I.project(s2, s_, idx.const) if idx.is_const() else Sym("%s[%r]" % (s_.name, idx))
+                c = s2.new_cell(el)
+                out.append((s2, "return", Ptr(c, ())))
+            else:
+                out.append((s2, "panic", ("index", info["fn"], info["ln"])))
+        return out
+    if rk in ("RangeTo", "Range", "RangeFrom", "RangeFull", "RangeInclusive", "RangeToInclusive"):
+        a = I.resolve(st, a) if a is not None else Aff(0)
+        b = I.resolve(st, b) if b is not None else L
+        if rk == "RangeFrom":
+            b = L
+        if rk == "RangeTo":
+            a = Aff(0)
+        if not (isinstance(a, Aff) and isinstance(b, Aff)):
+            return [(st, "panic", ("slice with unknown bounds", info["fn"], info["ln"]))] if site(I, st, info, "slice", False, "bounds of the range are known") else []
+        states = [(st, True)]
+        res = []
+        for cond, txt in ((I.compare(st, "Le", a, b), "start %r <= end %r" % (a, b)), (None, None)):
+            pass
+        cur = [(st, True)]
+        nxt = []
+        for s2, _ in cur:
+            for s3, ok1 in need(I, s2, info, "slice", I.compare(s2, "Le", a, b), "range start %r <= end %r" % (a, b)):
+                if not ok1:
+                    res.append((s3, "panic", ("slice", info["fn"], info["ln"])))
+                    continue
+                for s4, ok2 in need(I, s3, info, "slice", I.compare(s3, "Le", b, L), "range end %r <= len %r" % (b, L)):
+                    if not ok2:
+                        res.append((s4, "panic", ("slice", info["fn"], info["ln"])))
+                        continue
+                    if is_str:
+                        # char boundary: only decidable for constant 0 / the whole length
+                        bnd_ok = (a.is_const() and a.const == 0) and (b == L)
+                        for s5, ok3 in site(I, s4, info, "str slice", True if bnd_ok else False, "byte offsets %r..%r are char boundaries of an arbitrary string" % (a, b)):
+                            if ok3:
+                                res.append((s5, "return", Seq("%s[%r..%r]" % (s_.name, a, b), b.sub(a), kind="str")))
+                            else:
+                                res.append((s5, "panic", ("str slice", info["fn"], info["ln"])))
+                        continue
+                    sub = Seq("%s[%r..%r]" % (s_.name, a, b), b.sub(a), kind=s_.kind if s_.kind != "array" else "bytes")
+                    if s_.elems is not None and a.is_const() and b.is_const():
+                        sub = Seq(sub.name, sub.length, s_.elems[a.const:b.const], None, {}, sub.kind)
+                    res.append((s4, "return", sub))
+        return res
+    st.unmodelled.append("index with %r" % (idx,))
+    return ret(st, Top("index"))
+
+
+@model(r"^core::slice::<impl \[T\]>::split_at$")
+def m_split_at(I, st, info, args, depth):
+    s_ = seq_of(I, st, args[0])
+    mid = I.resolve(st, args[1])
+    out = []
+    for s2, okk in need(I, st, info, "split_at", I.compare(st, "Le", mid, s_.length), "mid %r <= len %r" % (mid, s_.length)):
+        if okk:
+            out.append((s2, "return", Struct("(tuple)", None, {"0": Seq(s_.name + "[..%r]" % mid, mid, kind="bytes"), "1": Seq(s_.name + "[%r..]" % mid, s_.length.sub(mid), kind="bytes")})))
+        else:
+            out.append((s2, "panic", ("split_at", info["fn"], info["ln"])))
+    return out
+
+
+@model(r"^core::slice::<impl \[T\]>::copy_from_slice$|^core::slice::<impl \[T\]>::clone_from_slice$")
+def m_copy_from_slice(I, st, info, args, depth):
+    dst_p = I.resolve(st, args[0])
+    d = seq_of(I, st, args[0])
+    s_ = seq_of(I, st, args[1])
+    out = []
+    for s2, okk in need(I, st, info, "copy_from_slice", I.compare(st, "Eq", d.length, s_.length), "destination length %r == source length %r" % (d.length, s_.length)):
+        if okk:
+            if isinstance(dst_p, Ptr):
+                I.store_to(s2, dst_p, Seq(s_.name, d.length, None, None, dict(s_.attrs), d.kind))
+            out.append((s2, "return", UNIT))
+        else:
+            out.append((s2, "panic", ("copy_from_slice", info["fn"], info["ln"])))
+    return out
+
+
+def typenum_len(name):
+    m = re.search(r"GenericArray::<u8, U(\d+)>|GenericArray<u8, U(\d+)>", name)
+    if m:
+        return int(m.group(1) or m.group(2))
+    return None
+
+
+@model(r"^generic_array::GenericArray::<T, N>::from_slice$|^generic_array::GenericArray::<T, N>::clone_from_slice$|^generic_array::GenericArray::<T, N>::from_mut_slice$")
+def m_ga_from_slice(I, st, info, args, depth):
+    n = typenum_len(info["name"])
+    s_ = seq_of(I, st, args[0])
+    if n is None:
+        for s2, okk in site(I, st, info, "GenericArray::from_slice", False, "the array length of %s is known" % M.short(info["name"])):
+            return [(s2, "panic", ("from_slice", info["fn"], info["ln"]))]
+    out = []
+    for s2, okk in need(I, st, info, "GenericArray::from_slice", I.compare(st, "Eq", s_.length, Aff(n)), "slice length %r == %d" % (s_.length, n)):
+        if okk:
+            out.append((s2, "return", Seq(s_.name, Aff(n), None, None, dict(s_.attrs), "array")))
+        else:
+            out.append((s2, "panic", ("from_slice", info["fn"], info["ln"])))
+    return out
+
+
+@model(r"^core::panicking::(assert_failed|panic|panic_fmt|panic_display|unreachable_display|panic_explicit|panic_str)|^std::rt::begin_panic|^core::panicking::panic_nounwind|^core::option::expect_failed|^core::result::unwrap_failed")
+def m_panic(I, st, info, args, depth):
+    for s2, okk in site(I, st, info, "explicit panic", False, "this panic / assertion failure is unreachable"):
+        return [(s2, "panic", ("panic", info["fn"], info["ln"]))]
+    return []
+
+
+@model(r"^core::str::<impl str>::split$|^core::str::<impl str>::splitn$|^core::str::<impl str>::rsplit$")
+def m_split(I, st, info, args, depth):
+    src = seq_of(I, st, args[0])
+    return ret(st, Struct("str::Split", None, {"src": src}))
+
+
+@model(r"^core::iter::traits::iterator::Iterator::collect$")
+def m_collect(I, st, info, args, depth):
+    it = deref(I, st, args[0])
+    if isinstance(it, Struct) and it.adt == "str::Split":
+        n = st.facts.get("nsplit", 0)
+        st.facts["nsplit"] = n + 1
+        name = "parts%d" % n
+        st.bounds["len(%s)" % name] = (1, LEN_MAX)
+        return ret(st, Seq(name, Aff.sym("len(%s)" % name), kind="vec", attrs={"elem": "str"}))
+    if isinstance(it, Seq):
+        return ret(st, it)
+    return ret(st, Seq("collected@%d" % info["ln"], Aff.sym("len(collected@%d)" % info["ln"]), kind="vec"))
+
+
+@model(r"^core::ops::range::RangeInclusive::<Idx>::new$")
+def m_ri_new(I, st, info, args, depth):
+    return ret(st, Struct("core::ops::range::RangeInclusive", None, {"start": args[0], "end": args[1]}))
+
+
+@model(r"^core::ops::range::RangeInclusive::<Idx>::contains$|^core::ops::range::Range::<Idx>::contains$")
+def m_range_contains(I, st, info, args, depth):
+    r = deref(I, st, args[0])
+    x = deref(I, st, args[1])
+    if isinstance(r, Struct) and isinstance(x, Aff):
+        lo, hi = I.resolve(st, r.fields.get("start")), I.resolve(st, r.fields.get("end"))
+        if isinstance(lo, Aff) and isinstance(hi, Aff):
+            incl = "Inclusive" in r.adt
+            out = []
+            # x >= lo && x <= hi
+            c1 = I.compare(st, "Ge", x, lo)
+            for s2, t1 in fork_bool(I, st, c1):
+                if not t1:
+                    out.append((s2, "return", BoolV(False)))
+                    continue
+                c2 = I.compare(s2, "Le" if incl else "Lt", x, hi)
+                for s3, t2 in fork_bool(I, s2, c2):
+                    out.append((s3, "return", BoolV(t2)))
+            return out
+    return ret(st, SymBool(("contains", repr(r), repr(x))))
+
+
+def fork_bool(I, st, c):
+    if isinstance(c, BoolV):
+        return [(st, c.b)]
+    out = []
+    s2 = st.clone()
+    if I.assume(s2, c, True):
+        out.append((s2, True))
+    if I.assume(st, c, False):
+        out.append((st, False))
+    return out
+
+
+def result_fork(I, st, okv, errname, what):
+    s2 = st.clone()
+    s2.cond.append(what + " ok")
+    st.cond.append(what + " fails")
+    return [(s2, "return", ok(okv)), (st, "return", err(Sym(errname)))]
+
+
+@model(r"^base64::engine::Engine::decode$")
+def m_b64dec(I, st, info, args, depth):
+    n = st.facts.get("ndec", 0)
+    st.facts["ndec"] = n + 1
+    name = "decoded%d" % n
+    return result_fork(I, st, Seq(name, Aff.sym("len(%s)" % name), kind="vec"), "base64::DecodeError", "base64 decode")
+
+
+@model(r"^hex::decode$")
+def m_hexdec(I, st, info, args, depth):
+    return result_fork(I, st, Seq("hexbytes", Aff.sym("len(hexbytes)"), kind="vec"), "hex::FromHexError", "hex decode")
+
+
+@model(r"^core::str::converts::from_utf8$|^alloc::string::String::from_utf8$")
+def m_from_utf8(I, st, info, args, depth):
+    s_ = seq_of(I, st, args[0])
+    return result_fork(I, st, Seq("utf8(%s)" % s_.name, s_.length, kind="str"), "Utf8Error", "utf8")
+
+
+@model(r"^ring::deprecated_constant_time::verify_slices_are_equal$|^ring::constant_time::verify_slices_are_equal$")
+def m_verify_slices(I, st, info, args, depth):
+    return result_fork(I, st, UNIT, "ring::error::Unspecified", "constant-time compare")
+
+
+def out_size(name):
+    m = re.search(r"Blake2bMac<U(\d+)>|Blake2bVarCore, U(\d+)", name)
+    if m:
+        return int(m.group(1) or m.group(2))
+    if re.search(r"Sha512VarCore, U48|Sha384", name):
+        return 48
+    if re.search(r"Sha256VarCore, U32|Sha256", name):
+        return 32
+    if re.search(r"Sha512", name):
+        return 64
+    return None
+
+
+@model(r"^crypto_common::KeyInit::new_from_slice$|^digest::mac::Mac::new_from_slice$")
+def m_new_from_slice(I, st, info, args, depth):
+    nm = info["name"]
+    k = seq_of(I, st, args[0])
+    obj = Sym("mac", attrs={"mac": nm, "out": out_size(nm)})
+    if "Hmac" in nm or "hmac::" in nm:
+        return ret(st, ok(obj))          # HMAC accepts keys of any length
+    if "blake2::Blake2bMac" in nm:
+        c = I.compare(st, "Le", k.length, Aff(64))  # blake2: Err(InvalidLength) iff key longer than 64 bytes
+    elif "ChaChaPoly1305" in nm or "chacha20poly1305" in nm:
+        c = I.compare(st, "Eq", k.length, Aff(32))
+    else:
+        return result_fork(I, st, obj, "InvalidLength", "new_from_slice")
+    out = []
+    for s2, t in fork_bool(I, st, c):
+        out.append((s2, "return", ok(obj) if t else err(Sym("InvalidLength"))))
+    return out
+
+
+@model(r"^digest::FixedOutput::finalize_fixed$|^digest::mac::Mac::finalize$|^digest::digest::Digest::finalize$")
+def m_finalize(I, st, info, args, depth):
+    n = out_size(info["name"])
+    if info["tdef"].endswith("Mac::finalize"):
+        return ret(st, Struct("CtOutput", None, {"bytes": Seq("mac_out", Aff(n) if n else Aff.sym("maclen"), kind="array")}))
+    return ret(st, Seq("digest_out", Aff(n) if n else Aff.sym("digestlen"), kind="array"))
+
+
+@model(r"^digest::mac::CtOutput::<T>::into_bytes$")
+def m_into_bytes(I, st, info, args, depth):
+    v = deref(I, st, args[0])
+    if isinstance(v, Struct) and "bytes" in v.fields:
+        return ret(st, v.fields["bytes"])
+    n = out_size(info["name"])
+    return ret(st, Seq("mac_out", Aff(n) if n else Aff.sym("maclen"), kind="array"))
+
+
+# opaque, never panicking (SAFE table): return an opaque value / unit
+SAFE_UNIT = (r"^digest::Update::update$|^digest::mac::Mac::update$|^digest::digest::Digest::update$|^cipher::stream::StreamCipher::apply_keystream$|^zeroize::Zeroize::zeroize$|"
+             r"^core::mem::drop$")
+SAFE_OPAQUE = (r"^cipher::common::NewCipher::new$|^crypto_common::KeyIvInit::new$|^ring::hkdf::Salt::new$|^ring::hkdf::Salt::extract$|^ring::signature::UnparsedPublicKey::<B>::new$|"
+               r"^core::default::Default::default$|^ring::rand::SystemRandom::new$|^serde_json::value::Value::to_string$|^time::offset_date_time::OffsetDateTime::to_string$")
+
+
+@model(SAFE_UNIT)
+def m_safe_unit(I, st, info, args, depth):
+    if info["def"] in I.facts.bodies:
+        return None
+    return ret(st, UNIT)
+
+
+@model(SAFE_OPAQUE)
+def m_safe_opaque(I, st, info, args, depth):
+    if info["def"] in I.facts.bodies:
+        return None
+    return ret(st, Sym(M.short(info["tdef"]).split("::")[-2] if "::" in info["tdef"] else "opaque"))
+
+
+RESULT_FORKS = [
+    (r"^aead::Aead::decrypt$|^aead::Aead::encrypt$", lambda I, st, info, args: Seq("aead_out", Aff.sym("len(aead_out)"), kind="vec"), "aead::Error"),
+    (r"^signature::verifier::Verifier::verify$|^signature::verifier::DigestVerifier::verify_digest$|^ring::signature::UnparsedPublicKey::<B>::verify$", lambda I, st, info, args: UNIT, "signature::Error"),
+    (r"^ed25519_dalek::verifying::VerifyingKey::from_bytes$|^ecdsa::verifying::VerifyingKey::<C>::from_sec1_bytes$|^elliptic_curve::public_key::PublicKey::<C>::from_sec1_bytes$", lambda I, st, info, args: Sym("public key object"), "key error"),
+    (r"^serde_json::value::to_value$", lambda I, st, info, args: Sym("to_value", attrs={"adt": "serde_json::value::Value"}), "serde_json::Error"),
+    (r"^ring::hkdf::Prk::expand$", lambda I, st, info, args: Struct("ring::hkdf::Okm", None, {"len": args[2]}), "ring::error::Unspecified"),
+    (r"^ring::hkdf::Okm::<'a, L>::fill$|^ring::hkdf::Okm::<'_, L>::fill$", lambda I, st, info, args: UNIT, "ring::error::Unspecified"),
+    (r"^ring::rand::SecureRandom::fill$", lambda I, st, info, args: UNIT, "ring::error::Unspecified"),
+]
+for _pat, _mk, _err in RESULT_FORKS:
+    def _make(mk, errn, pat):
+        def h(I, st, info, args, depth):
+            return result_fork(I, st, mk(I, st, info, args), errn, M.short(info["tdef"]).split("::")[-1])
+        return h
+    MODELS.append((re.compile(_pat), _make(_mk, _err, _pat)))
+
+
+@model(r"^ring::hkdf::Okm::<'a, L>::len$|^ring::hkdf::Okm::<'_, L>::len$")
+def m_okm_len(I, st, info, args, depth):
+    v = deref(I, st, args[0])
+    if isinstance(v, Struct) and "len" in v.fields:
+        c = st.new_cell(v.fields["len"])
+        return ret(st, Ptr(c, ()))
+    return ret(st, Top("okm len"))
+
+
+@model(r"^elliptic_curve::sec1::ToEncodedPoint::to_encoded_point$|^ecdsa::verifying::VerifyingKey::<C>::to_encoded_point$")
+def m_encoded_point(I, st, info, args, depth):
+    return ret(st, Seq("encoded_point", Aff.sym("len(encoded_point)"), kind="bytes"))
+
+
+@model(r"^core::convert::TryFrom::try_from$|^core::convert::TryInto::try_into$")
+def m_try_from(I, st, info, args, depth):
+    nm = info["name"]
+    if info["def"] in I.facts.bodies:
+        return None
+    # blanket TryInto -> the crate's TryFrom impl
+    if info["tdef"].endswith("try_into") and len(info["gargs"]) >= 2:
+        tgt = M.decode_typenum(info["gargs"][1])
+        for b in I.facts.bodies.values():
+            if b.get("name") == "try_from" and b.get("impl_trait", "").startswith("core::convert::TryFrom<") and M.decode_typenum(b.get("impl_self", "")) == tgt:
+                return list(I._call_body(st, b, args, depth + 1))
+    # &[u8] -> &[u8; N]  /  [u8; N]
+    m = re.search(r"<&\[u8; (\d+)\] as core::convert::TryFrom<&\[u8\]>>|<\[u8; (\d+)\] as core::convert::TryFrom<&\[u8\]>>|TryFrom<&'a \[T\]> for &'a \[T; N\]", nm + " " + info["def"])
+    mm = re.search(r"\[u8; (\d+)\]", nm)
+    if m and mm:
+        n = int(mm.group(1))
+        s_ = seq_of(I, st, args[0])
+        out = []
+        for s2, t in fork_bool(I, st, I.compare(st, "Eq", s_.length, Aff(n))):
+            out.append((s2, "return", ok(Seq(s_.name, Aff(n), kind="array")) if t else err(Sym("TryFromSliceError"))))
+        return out
+    if "Signature" in nm or "signature" in nm:
+        return result_fork(I, st, Sym("signature object"), "signature::Error", "signature parse")
+    return result_fork(I, st, Sym("converted"), "conversion error", "try_from")
+
+
+@model(r"^std::collections::hash::map::HashMap::<K, V, S, A>::contains_key$")
+def m_hm_contains(I, st, info, args, depth):
+    mname = repr(I.resolve(st, args[0]))
+    k = str_key(I, st, args[1])
+    key = ("hashcontains", mname, k)
+    known = st.facts.get(key)
+    if known is not None:
+        return ret(st, BoolV(known))
+    s2 = st.clone()
+    s2.facts[key] = True
+    s2.cond.append("%s has %s" % (mname, k[1]))
+    st.facts[key] = False
+    st.cond.append("%s lacks %s" % (mname, k[1]))
+    return [(s2, "return", BoolV(True)), (st, "return", BoolV(False))]
+
+
+@model(r"^core::ops::function::Fn::call$|^core::ops::function::FnMut::call_mut$|^core::ops::function::FnOnce::call_once$")
+def m_fn_call(I, st, info, args, depth):
+    f = deref(I, st, args[0])
+    tup = deref(I, st, args[1])
+    av = [tup.fields[str(i)] for i in range(len(tup.fields))] if isinstance(tup, Struct) else []
+    if isinstance(f, FnV):
+        return I.call_value(st, f, av, depth)
+    # a caller-supplied validator (dyn Fn): its own panics are the caller's; its verdict is unknown
+    if "PasetoClaimError" in info["name"]:
+        return result_fork(I, st, UNIT, "PasetoClaimError", "validator")
+    return ret(st, Top("dyn Fn"))
+
+
+@model(r"^core::num::<impl usize>::checked_(add|sub|mul)$")
+def m_checked(I, st, info, args, depth):
+    a, b = I.resolve(st, args[0]), I.resolve(st, args[1])
+    op = info["tdef"].split("_")[-1]
+    if not (isinstance(a, Aff) and isinstance(b, Aff)):
+        return ret(st, Sym("checked", attrs={"adt": "core::option::Option"}))
+    r = a.add(b) if op == "add" else (a.sub(b) if op == "sub" else (b.scale(a.const) if a.is_const() else (a.scale(b.const) if b.is_const() else None)))
+    if r is None:
+        return ret(st, Sym("checked", attrs={"adt": "core::option::Option"}))
+    c = I.compare(st, "Ge", r, Aff(0)) if op == "sub" else I.compare(st, "Le", r, Aff((1 << 64) - 1))
+    out = []
+    for s2, t in fork_bool(I, st, c):
+        out.append((s2, "return", some(r) if t else none()))
+    return out
